@@ -114,3 +114,15 @@ Theorem C27_temporary_found_refuted_entry :
     (exists n, In n (map fst kw) /\ get_item s' n <> get_item s n).
 Proof. exact temporary_found_refuted_entry. Qed.
 Print Assumptions C27_temporary_found_refuted_entry.
+
+(* The deprecation-alias path of temporary(): for EVERY declaration-free body, temporary value and exit, a
+   temporary() call that names the deprecated option "old" (forwarding to "a") leaves both names reading the
+   pre-entry value (instance of C27_temporary_restores on a concrete well-formed state with an alias; shows the
+   theorem's premises are satisfiable on that path). *)
+Theorem C27_temporary_restores_alias :
+  forall body v s' ob e,
+    decl_free body = true ->
+    run_op cfg_fixed (OTemp [("old", v)] body) s_alias = (s', ob, e) ->
+    get_item s' "old" = inr (PInt 1) /\ get_item s' "a" = inr (PInt 1).
+Proof. exact temporary_restores_alias. Qed.
+Print Assumptions C27_temporary_restores_alias.
